@@ -4,7 +4,7 @@
 From Coq Require Import ZArith List Arith Bool Lia Permutation.
 From OPF Require Import Base.Lists Model.Sup Spec.Paths Proofs.Predict.
 Import ListNotations.
-Close Scope Z_scope.
+Local Close Scope Z_scope.
 
 Lemma reaches_none_inv (P : nat -> option nat) i t k : P i = None -> reaches P i t k -> t = i.
 Proof. intros Hn Hr; inversion Hr; subst; auto; congruence. Qed.
